@@ -1129,6 +1129,9 @@ func (c *consumer) assignPartitions(assignments map[string]map[int32]Offset, how
 		// if we had no session before, which is why we need to pass in
 		// our topicPartitions.
 		session = c.guardSessionChange(tps)
+		if session == noConsumerSession && c.kill.Load() {
+			return // closing: nothing may be assigned anymore
+		}
 	} else {
 		loadOffsets, _ = c.stopSession()
 
@@ -1855,6 +1858,13 @@ func (c *consumer) guardSessionChange(tps *topicsPartitions) *consumerSession {
 		// If there is no session, we simply store one. This is fine;
 		// sources will be able to begin a fetch loop, but they will
 		// have no cursors to consume yet.
+		//
+		// If the client is closing we do not, same as startNewSession:
+		// close has stopped the last session and is about to kill the
+		// sources' fetch sessions, which a new fetch loop would read.
+		if c.kill.Load() {
+			tps = nil
+		}
 		session = c.newConsumerSession(tps)
 		c.session.Store(session)
 	}
